@@ -318,3 +318,24 @@ package panos
 //vc:func unknownEq
 //vc:  invariant[C03] 1 "for i, uA := range a" @elementsEqualSoFar len(a) == len(b) && -1 <= rangeindex && (forall k int :: { a[k] } 0 <= k && k <= rangeindex ==> a[k].XMLName == b[k].XMLName && a[k].XML == b[k].XML)
 //vc:  ensures[C03] @equalListsAgree result ==> len(a) == len(b) && (forall k int :: { a[k] } 0 <= k && k < len(a) ==> a[k].XMLName == b[k].XMLName && a[k].XML == b[k].XML)
+
+// removeUnneededObjects: every object of the device that is not needed any
+// more is deleted under the path of its kind, address-groups before addresses
+// and service-groups before services (a group refers to its members).
+//vc:ghost var panDeleted string
+//vc:func (*rulesPair).removeUnneededObjects$1
+//vc:  inline
+//vc:  assign after "result = append(result, cmd)" panDeleted = name
+//vc:func (*rulesPair).removeUnneededObjects
+//vc:  assert[C03,C08] at "delete(o.Name)"#1 @unneededGroupDeletedFirst !o.needed && cmd0 == "type=config&xpath=" + (vsysPath + "/address-group/entry")
+//vc:  assert[C03,C08] at "delete(o.Name)"#2 @unneededAddressDeleted !o.needed && cmd0 == "type=config&xpath=" + (vsysPath + "/address/entry")
+//vc:  assert[C03,C08] at "delete(o.Name)"#3 @unneededServiceGroupDeletedFirst !o.needed && cmd0 == "type=config&xpath=" + (vsysPath + "/service-group/entry")
+//vc:  assert[C03,C08] at "delete(o.Name)"#4 @unneededServiceDeleted !o.needed && cmd0 == "type=config&xpath=" + (vsysPath + "/service/entry")
+//vc:  invariant[C03,C08] 1 "for _, o := range ab.a.vsys.AddressGroups" @pathOfThisKind cmd0 == "type=config&xpath=" + (vsysPath + "/address-group/entry")
+//vc:  invariant[C03] 1 "for _, o := range ab.a.vsys.AddressGroups" @everyUnneededGroupDeleted forall k int :: { ab.a.vsys.AddressGroups[k] } k == rangeindex && 0 <= k && !ab.a.vsys.AddressGroups[k].needed ==> panDeleted == ab.a.vsys.AddressGroups[k].Name
+//vc:  invariant[C03,C08] 2 "for _, o := range ab.a.vsys.Addresses" @pathOfThisKind cmd0 == "type=config&xpath=" + (vsysPath + "/address/entry")
+//vc:  invariant[C03] 2 "for _, o := range ab.a.vsys.Addresses" @everyUnneededAddressDeleted forall k int :: { ab.a.vsys.Addresses[k] } k == rangeindex && 0 <= k && !ab.a.vsys.Addresses[k].needed ==> panDeleted == ab.a.vsys.Addresses[k].Name
+//vc:  invariant[C03,C08] 3 "for _, o := range ab.a.vsys.ServiceGroups" @pathOfThisKind cmd0 == "type=config&xpath=" + (vsysPath + "/service-group/entry")
+//vc:  invariant[C03] 3 "for _, o := range ab.a.vsys.ServiceGroups" @everyUnneededServiceGroupDeleted forall k int :: { ab.a.vsys.ServiceGroups[k] } k == rangeindex && 0 <= k && !ab.a.vsys.ServiceGroups[k].needed ==> panDeleted == ab.a.vsys.ServiceGroups[k].Name
+//vc:  invariant[C03,C08] 4 "for _, o := range ab.a.vsys.Services" @pathOfThisKind cmd0 == "type=config&xpath=" + (vsysPath + "/service/entry")
+//vc:  invariant[C03] 4 "for _, o := range ab.a.vsys.Services" @everyUnneededServiceDeleted forall k int :: { ab.a.vsys.Services[k] } k == rangeindex && 0 <= k && !ab.a.vsys.Services[k].needed ==> panDeleted == ab.a.vsys.Services[k].Name
